@@ -8,11 +8,13 @@
                                    and Spec/Task.v spec_simple/spec_constrained)
    Proofs         : Proofs/RunBridge.v (bytes -> lines), Proofs/RunStream.v
                     (apply_global + apply_to_file + gzip dispatch),
-                    Proofs/Run.v (simple searches), Proofs/RunSeq.v (sequences).
+                    Proofs/Run.v (simple searches), Proofs/RunSeq.v (sequences),
+                    Proofs/RunWindow.v (the window on the lines).
 
    What is IMPORTED (theorems of the other properties, used as they are):
      C12 execute_is_search / gzip_transparent        file kinds, zero size
-     C04 since_seek_exact                            where the seek ends
+     C04 since_seek_exact, since_seek_declarative,   where the seek ends
+         no_skip_no_old, first_in_window_unique
      C11 position_is_line_boundary, try_find_line_spec
      Lines split_lines_app_lf, split_lines_concat, split_lines_wf
      C01 simple_run_file_numbering, simple_search_exact, simple_no_spurious,
@@ -28,17 +30,22 @@
      B4 Sequence.seq_step / seq_eof as Task's [step] / [post].
 
    The line-level oracles (omatch / ohint / ocon on classified lines) and the
-   window-level timestamp oracle [tsw] are independent parameters of the
-   theorems: no relation between them is needed.  (In the implementation
-   both timestamps come from one matcher class; the Example below builds the
-   line-level constraint outcome from the same toy matcher as the seek,
-   [E2E_example_one_matcher].) *)
+   window-level timestamp oracle [tsw] are independent parameters: the two
+   main theorems need NO relation between them.  One statement does - "no
+   searched timestamped line is older than the since date, no skipped one is
+   in the window", read on the LINE-level timestamp
+   (E2E_window_exact_on_lines): it needs Spec/Run.v [one_matcher] (on every
+   line of the file the line-level timestamp is the one the seek reads in
+   the window at the line's first byte - in the implementation both come
+   from one TimestampMatcher class).  The Example builds both from the same
+   toy matcher and proves the hypothesis for it. *)
 From Coq Require Import ZArith List Bool Lia.
 From SK Require Import Model.Base Model.Seek Model.SinceSeek Model.Lines
      Model.Task Model.Stats Model.Gzip Model.Sequence Model.Run
      Spec.Lines Spec.C04 Spec.Task Spec.Stats Spec.Sequence Spec.Run
      Proofs.TaskLoop Proofs.TaskSimple Proofs.SeekSpec Proofs.SinceSeekExact
-     Proofs.RunBridge Proofs.RunStream Proofs.Run Proofs.RunSeq Gen.Params.
+     Proofs.RunBridge Proofs.RunStream Proofs.Run Proofs.RunSeq
+     Proofs.RunWindow Gen.Params.
 Import ListNotations.
 Open Scope Z_scope.
 
@@ -163,6 +170,30 @@ Theorem E2E_searched_lines_are_file_lines :
     concat (firstn k (split_lines c)) = firstn p c.
 Proof. exact searched_are_file_lines. Qed.
 
+(* the since window read on the LINES: under C04's hypotheses and
+   ONE MATCHER ([tsl] on a classified line = [tsw] on the window at the
+   line's first byte), for a file-level constraint that is applied: every
+   searched line that has a timestamp is at or after the since date, and
+   every line before the first searched one that has a timestamp is older.
+   (C04_no_skip_no_old transported from byte offsets to line indices:
+   [line_offset] of a line is a line start, [lines_before] counts the lines
+   whose offset is before the position.)                            [full] *)
+Theorem E2E_window_exact_on_lines :
+  forall H A L W tsw (line : Type) (classify : list Z -> line)
+         (tsl : line -> option Z),
+    0 < H -> 0 < A -> 0 < L ->
+    forall c s restrictions ids,
+    restricted restrictions ids = false ->
+    seek_hyps H A L W tsw c ->
+    one_matcher W tsw line classify tsl c ->
+    let k := lines_before (split_lines c)
+               (Z.to_nat (start_byte W tsw (Some s) restrictions ids c)) in
+    Forall (fun x => forall d, tsl x = Some d -> s <= d)
+           (searched W tsw line classify (Some s) restrictions ids c) /\
+    Forall (fun x => forall d, tsl x = Some d -> d < s)
+           (firstn k (file_lines line classify c)).
+Proof. exact searched_in_window_skipped_old. Qed.
+
 (* C12 inside the composed run: plain / gzip / multi-member gzip files with
    the same (decompressed) stream give the same outcome - results,
    statistics, non-termination; NO hypothesis on the content.  (Uses
@@ -279,7 +310,8 @@ Qed.
    "contains 'b' (98)", one group (the line's length); constraint 1 = the
    line's own timestamp BY THE SAME MATCHER against the date 55 (Pass /
    Fail, Undecided when undated); sequence start 's' (115), body 'b', end
-   'e' (101).  The log, 7 lines, no final line feed:
+   'e' (101); the line's timestamp itself is kept as the "match" of the
+   otherwise unused pattern 0 ([ex_tsl]).  The log, 7 lines, no final LF:
        "us" "d5a" "d5s" "" "xd9b" "d7ab" "ue"   line starts 0 3 7 11 12 17 22
    H = 4, A = 3, L = 3 (longest undated run 2 = L - 1), W = 2, MAX = 2,
    NUM_BUFFERED_RESULTS = 3.  d1 = [p1] unconstrained, registered twice;
@@ -289,12 +321,15 @@ Definition ex_tsw (w : list Z) : option Z :=
 Definition has (b : Z) (l : list Z) : bool := existsb (Z.eqb b) l.
 Definition ex_classify (l : list Z) : tline :=
   mkTline ((if has 97 l then [(1, [97])] else []) ++
-           (if has 98 l then [(2, [98; Base.lenZ l])] else []))
+           (if has 98 l then [(2, [98; Base.lenZ l])] else []) ++
+           (match ex_tsw l with Some d => [(0, [d])] | None => [] end))
           []
           (match ex_tsw l with
            | Some d => [(1, if 55 <=? d then Pass else Fail)]
            | None => []
            end).
+Definition ex_tsl (t : tline) : option Z :=
+  match t_omatch 0 t with Some (d :: _) => Some d | _ => None end.
 Definition ex_log : list Z :=
   [117; 115; 10;  100; 53; 97; 10;  100; 53; 115; 10;  10;
    120; 100; 57; 98; 10;  100; 55; 97; 98; 10;  117; 101].
@@ -396,6 +431,41 @@ Example E2E_example_one_matcher :
                 | None => Undecided end) (split_lines ex_log).
 Proof. vm_compute. split; reflexivity. Qed.
 
+(* ONE MATCHER holds for the example (proved, for every line) ... *)
+Example E2E_example_one_matcher_holds :
+  one_matcher 2 ex_tsw tline ex_classify ex_tsl ex_log.
+Proof.
+  intros i l Hl.
+  assert (E : split_lines ex_log =
+              [[117; 115; 10]; [100; 53; 97; 10]; [100; 53; 115; 10]; [10];
+               [120; 100; 57; 98; 10]; [100; 55; 97; 98; 10]; [117; 101]])
+    by (vm_compute; reflexivity).
+  rewrite E in Hl.
+  do 7 (destruct i as [|i];
+        [inversion Hl; subst l; vm_compute; reflexivity
+        |cbn [nth_error] in Hl]).
+  destruct i; discriminate.
+Qed.
+
+(* ... so E2E_window_exact_on_lines applies: with since = 54 the only
+   searched timestamped line has date 55, the skipped ones 53 *)
+Example E2E_example_window :
+  (forall s,
+     Forall (fun x => forall d, ex_tsl x = Some d -> s <= d)
+            (searched 2 ex_tsw tline ex_classify (Some s) [] [1; 2; 1]
+                      ex_log)) /\
+  map ex_tsl (searched 2 ex_tsw tline ex_classify (Some 54) [] [1; 2; 1]
+                       ex_log) = [Some 55; None] /\
+  map ex_tsl (firstn 5 (file_lines tline ex_classify ex_log)) =
+    [None; Some 53; Some 53; None; None].
+Proof.
+  split; [|vm_compute; split; reflexivity].
+  intros s. destruct E2E_example_hypotheses as (_ & _ & _ & Hs & _ & _).
+  exact (proj1 (E2E_window_exact_on_lines 4 3 3 2 ex_tsw tline ex_classify
+                  ex_tsl ltac:(lia) ltac:(lia) ltac:(lia) ex_log s []
+                  [1; 2; 1] eq_refl Hs E2E_example_one_matcher_holds)).
+Qed.
+
 (* sequence searches on the same log: start 's' (value = line length), body
    'b', end 'e'; one definition with an end and a body.  Whole file: the
    section opened by "us" is discarded by the restart at "d5s"; with
@@ -457,6 +527,7 @@ Print Assumptions E2E_seek_position_cuts_lines.
 Print Assumptions E2E_byte_view_is_line_view.
 Print Assumptions E2E_run_file_searches_spec_lines.
 Print Assumptions E2E_searched_lines_are_file_lines.
+Print Assumptions E2E_window_exact_on_lines.
 Print Assumptions E2E_file_kind_irrelevant.
 Print Assumptions E2E_sequence_search.
 Print Assumptions E2E_sequence_handler_is_seq_loop.
@@ -464,3 +535,4 @@ Print Assumptions E2E_real_single_file_run_exact.
 Print Assumptions E2E_example_theorem_applies.
 Print Assumptions E2E_example_run.
 Print Assumptions E2E_example_sequence.
+Print Assumptions E2E_example_window.
